@@ -45,7 +45,9 @@ def ll_of(xyz):
     """independent conversion (Python's libm through NumPy), longitudes in [-180, 180]"""
     xyz = np.asarray(xyz, dtype=float)
     lon = np.degrees(np.arctan2(xyz[:, 1], xyz[:, 0]))
-    lat = np.degrees(np.arcsin(np.clip(xyz[:, 2], -1.0, 1.0)))
+    # atan2(z, hypot(x, y)), not arcsin(z): arcsin loses ulp/cos(lat) near the poles (1.2e-11 on the
+    # direction at 1 - |z| = 2e-11), which made a SUPPLIED lon/lat inconsistent with the supplied xyz
+    lat = np.degrees(np.arctan2(xyz[:, 2], np.hypot(xyz[:, 0], xyz[:, 1])))
     return lon, lat
 
 
@@ -171,9 +173,13 @@ def degenerate(s):
 
 
 def near_cap_boundary(v):
-    """|z| within 1e-10 of the snapping threshold: the branch taken depends on rounding"""
-    z = np.abs(np.asarray(v, float)[:, 2])
-    return bool(np.any(np.abs(z - (1.0 - SNAP)) < 1e-10))
+    """true positions whose judgement would depend on rounding rather than on the algorithm:
+    |z| within 1e-10 of the snapping threshold (which branch is taken), and the annulus just outside
+    the cap, 1e-8 <= 1 - |z| < 1e-7, where the latitude `arcsin(z)` the library derives from a
+    Cartesian position is conditioned worse than the 1e-12 comparison tolerance
+    (error ~ 2 ulp / sqrt(2 (1 - |z|)) = 1.6e-12 at the threshold, 5e-13 at 1e-7)"""
+    d = 1.0 - np.abs(np.asarray(v, float)[:, 2])
+    return bool(np.any((d > SNAP - 1e-10) & (d < 1e-7)))
 
 
 # --------------------------------------------------------------------------------------
@@ -516,8 +522,8 @@ def special_sources():
                 a = j * 3 + i
                 fs.append([a, a + 1, a + 4, a + 3])
         out.append((name, ll, fs))
-    # fans around a node inside the snapping cap (1 - |z| ≈ 1.5e-12) and just outside it (≈ 5e-8)
-    for name, clat in (("cap-north", 89.9999), ("cap-south", -89.9999), ("near-cap-north", 89.982), ("near-cap-south", -89.982)):
+    # fans around a node inside the snapping cap (1 - |z| ≈ 1.5e-12) and just outside it (≈ 1.4e-7)
+    for name, clat in (("cap-north", 89.9999), ("cap-south", -89.9999), ("near-cap-north", 89.97), ("near-cap-south", -89.97)):
         sgn = 1.0 if clat > 0 else -1.0
         ring = [(-170.0 + 72.0 * i, sgn * 80.0) for i in range(5)]
         ll = [(50.0, clat)] + ring
@@ -542,7 +548,7 @@ def run(ctx):
                 "corpus/C04 first; distinct = distinct (source, history)")
     ctx.assumptions = [
         "IEEE rounding and libm (Lean's Float.sin/cos/atan2/asin vs NumPy's) are compared at 1e-12 on unit-vector components, not verified",
-        "cases with a true position within 1e-10 of the snapping threshold |z| = 1 - 1e-8 are dropped (branch depends on rounding)",
+        "cases with a true position within 1e-10 of the snapping threshold |z| = 1 - 1e-8, or in the annulus 1e-8 <= 1-|z| < 1e-7 just outside it (arcsin conditioned worse than 1e-12), are dropped and counted; supplied lon/lat are generated with atan2(z, hypot(x,y))",
         "a source supplies lon with lat and x with y and z; node xyz have one common radius; centroids with |mean| < 1e-6 are not generated",
         "normalize_cartesian_coordinates() is judged on directions only (the property says it changes lengths only); "
         "that it leaves stored centre vectors un-normalised when the nodes are unit is recorded as a note, not judged",
